@@ -273,11 +273,11 @@ func (s nodeInfoSpec) encode() []byte {
 	}
 	wString(&b, s.Signd)
 	wString(&b, s.Moniker)
-	wString(&b, "c20net")      // Network
-	wString(&b, "")            // RemoteAddr
-	wString(&b, s.ListenAddr)  // ListenAddr
-	wString(&b, "0.0.0")       // Version
-	wVarint(&b, len(s.Other))  // Other
+	wString(&b, "c20net")     // Network
+	wString(&b, "")           // RemoteAddr
+	wString(&b, s.ListenAddr) // ListenAddr
+	wString(&b, "0.0.0")      // Version
+	wVarint(&b, len(s.Other)) // Other
 	for _, o := range s.Other {
 		wString(&b, o)
 	}
